@@ -1,6 +1,8 @@
 //! Reference mathematics for the oracles, written independently of the contracts:
 //! exact integer/rational arithmetic on 1024-bit integers, roots by bisection on the exact
-//! polynomial (never the Newton iterations the contracts use).
+//! polynomial: every root is characterised by the exact sign predicate (f(r-1) < 0 <= f(r)); the
+//! search for it (monotone exact-integer Newton from above, then unit steps) is independent of the
+//! contracts' floating iteration and its result is re-checked against the predicate.
 
 use crate::big::{b, pow10, U1024};
 
@@ -52,17 +54,39 @@ pub fn stable_d(amp: u64, xs: &[U1024]) -> U1024 {
         }
         ann * d * k + dp >= d * k + ann * sum * k
     };
-    let mut lo = U1024::zero(); // f(lo) < 0
-    let mut hi = sum; // f(hi) >= 0
-    while hi - lo > U1024::one() {
-        let mid = (lo + hi) >> 1;
-        if f_ge0(mid) {
-            hi = mid;
-        } else {
-            lo = mid;
+    // f is convex and increasing on D > 0, so exact-integer Newton steps from above (D <- D - floor(f/f'))
+    // stay at or above the root and decrease monotonically; the loop ends within one unit above it.
+    // The answer is then pinned down by the exact predicate itself (f(D-1) < 0 <= f(D)), so the
+    // search strategy is only a matter of speed (plain bisection needed ~140 evaluations).
+    let annk = ann * k;
+    let rhs_const = annk * sum;
+    let np1 = b(n as u128 + 1);
+    let mut d = sum; // f(sum) >= 0
+    loop {
+        let mut dn = U1024::one();
+        for _ in 0..n {
+            dn = dn * d;
         }
+        let lhs = annk * d + dn * d;
+        let rhs = d * k + rhs_const;
+        if lhs < rhs {
+            // cannot happen for iterates above the root; fall back to stepping up
+            break;
+        }
+        let fprime = np1 * dn + annk - k; // Ann >= 1
+        let step = (lhs - rhs) / fprime;
+        if step.is_zero() {
+            break;
+        }
+        d = d - step;
     }
-    hi
+    while !f_ge0(d) {
+        d = d + U1024::one();
+    }
+    while !d.is_zero() && f_ge0(d - U1024::one()) {
+        d = d - U1024::one();
+    }
+    d
 }
 
 pub fn stable_d_norm(amp: u64, raw: &[u128], decimals: &[u8]) -> U1024 {
@@ -93,7 +117,6 @@ pub fn stable_y(amp: u64, d: U1024, others: &[U1024]) -> U1024 {
     let k = nn * p;
     // g(y)*k*y >= 0  <=>  Ann*(s+y)*k*y + D*k*y >= Ann*D*k*y + D^(n+1)
     let g_ge0 = |y: U1024| -> bool { ann * (s + y) * k * y + d * k * y >= ann * d * k * y + dp };
-    let mut lo = U1024::zero();
     let mut hi = d.max(U1024::one());
     // make sure hi satisfies g >= 0
     let mut guard = 0;
@@ -104,15 +127,35 @@ pub fn stable_y(amp: u64, d: U1024, others: &[U1024]) -> U1024 {
             break;
         }
     }
-    while hi - lo > U1024::one() {
-        let mid = (lo + hi) >> 1;
-        if g_ge0(mid) {
-            hi = mid;
-        } else {
-            lo = mid;
+    // q(y) = g(y)*k*y = A*y^2 + (Bp - Bn)*y - C is a convex parabola with q(0) < 0: exact-integer Newton
+    // steps from above stay above the positive root; the result is pinned by the predicate itself.
+    let a = ann * k;
+    let bp = ann * s * k + d * k;
+    let bn = ann * d * k;
+    let mut y = hi;
+    loop {
+        let lhs = a * y * y + bp * y;
+        let rhs = bn * y + dp;
+        if lhs < rhs {
+            break;
         }
+        let slope_pos = b(2) * a * y + bp;
+        if slope_pos <= bn {
+            break;
+        }
+        let step = (lhs - rhs) / (slope_pos - bn);
+        if step.is_zero() {
+            break;
+        }
+        y = y - step;
     }
-    hi
+    while !g_ge0(y) {
+        y = y + U1024::one();
+    }
+    while !y.is_zero() && g_ge0(y - U1024::one()) {
+        y = y - U1024::one();
+    }
+    y
 }
 
 #[derive(Clone, Copy, Debug, PartialEq, Eq)]
@@ -207,4 +250,106 @@ pub fn explained_by_raw_invariant(amp: u64, r0: [u128; 2], r1: [u128; 2], supply
         }
     }
     lhs <= b(supply) * ((d1 + b(4) + b(4) * m).saturating_sub(d0_lo))
+}
+
+#[cfg(test)]
+mod tests {
+    use super::*;
+
+    fn d_bisect(amp: u64, xs: &[U1024]) -> U1024 {
+        let n = xs.len() as u64;
+        let ann = b((amp * n) as u128);
+        let mut sum = U1024::zero();
+        let mut prod = U1024::one();
+        for x in xs {
+            sum = sum + *x;
+            prod = prod * *x;
+        }
+        if sum.is_zero() || prod.is_zero() {
+            return U1024::zero();
+        }
+        let mut nn = U1024::one();
+        for _ in 0..n {
+            nn = nn * b(n as u128);
+        }
+        let k = nn * prod;
+        let f = |d: U1024| {
+            let mut dp = d;
+            for _ in 0..n {
+                dp = dp * d;
+            }
+            ann * d * k + dp >= d * k + ann * sum * k
+        };
+        let (mut lo, mut hi) = (U1024::zero(), sum);
+        while hi - lo > U1024::one() {
+            let mid = (lo + hi) >> 1;
+            if f(mid) {
+                hi = mid;
+            } else {
+                lo = mid;
+            }
+        }
+        hi
+    }
+
+    fn y_bisect(amp: u64, d: U1024, others: &[U1024]) -> U1024 {
+        let n = (others.len() + 1) as u64;
+        let ann = b((amp * n) as u128);
+        let mut s = U1024::zero();
+        let mut p = U1024::one();
+        for x in others {
+            s = s + *x;
+            p = p * *x;
+        }
+        let mut nn = U1024::one();
+        for _ in 0..n {
+            nn = nn * b(n as u128);
+        }
+        let mut dp = d;
+        for _ in 0..n {
+            dp = dp * d;
+        }
+        let k = nn * p;
+        let g = |y: U1024| ann * (s + y) * k * y + d * k * y >= ann * d * k * y + dp;
+        let (mut lo, mut hi) = (U1024::zero(), d.max(U1024::one()));
+        while !g(hi) {
+            hi = hi << 1;
+        }
+        while hi - lo > U1024::one() {
+            let mid = (lo + hi) >> 1;
+            if g(mid) {
+                hi = mid;
+            } else {
+                lo = mid;
+            }
+        }
+        hi
+    }
+
+    #[test]
+    fn newton_search_agrees_with_bisection_on_a_grid() {
+        let vals: Vec<u128> = vec![1, 2, 3, 7, 1000, 1001, 999_999, 1_000_000_000, 123_456_789_012, 1 << 64, (1 << 100) + 12345, 10u128.pow(30), u128::MAX / 3];
+        let mut n = 0;
+        for amp in [1u64, 2, 85, 100, 1000, 1_000_000] {
+            for &x in &vals {
+                for &y in &vals {
+                    let xs2 = [b(x), b(y)];
+                    let d2 = stable_d(amp, &xs2);
+                    assert_eq!(d2, d_bisect(amp, &xs2), "D2 amp {amp} {x} {y}");
+                    assert_eq!(stable_y(amp, d2, &[b(x)]), y_bisect(amp, d2, &[b(x)]), "y2 amp {amp} {x} {y}");
+                    for &z in &vals {
+                        let xs3 = [b(x) * pow10(12), b(y) * pow10(12), b(z)];
+                        let d3 = stable_d(amp, &xs3);
+                        assert_eq!(d3, d_bisect(amp, &xs3), "D3 amp {amp} {x} {y} {z}");
+                        assert_eq!(stable_y(amp, d3, &xs3[..2]), y_bisect(amp, d3, &xs3[..2]), "y3 amp {amp} {x} {y} {z}");
+                        // a y for a different D (as after a deposit)
+                        let d3b = d3 + d3 / b(7) + b(1);
+                        assert_eq!(stable_y(amp, d3b, &xs3[1..]), y_bisect(amp, d3b, &xs3[1..]), "y3b amp {amp} {x} {y} {z}");
+                        n += 1;
+                    }
+                }
+            }
+        }
+        assert!(n > 10_000);
+    }
 }
